@@ -220,3 +220,5 @@ _meta.apply(PROPS)
 for _p in ('C08', 'C09'):
     PROPS[_p]['units'] = PROPS[_p]['units'] + [cli.ExtractAndSummarize]
 PROPS['C03']['units'] = PROPS['C03']['units'] + [_s.SrcCalloutsNative]
+for _p in ('C08', 'C09'):
+    PROPS[_p]['units'] = PROPS[_p]['units'] + [cli.GetFileListNative]
